@@ -93,6 +93,9 @@ func (e *Exec) call(fr *Frame, st *State, x *ssa.Call) (Value, bool) {
 	if ct := e.contractOf(callee); ct != nil && fr.fn != callee {
 		return e.callByContract(fr, st, x, callee, ct)
 	}
+	if v, ok, handled := e.bigCall(fr, st, x, callee); handled {
+		return v, ok
+	}
 	if v, ok, handled := e.knownCall(fr, st, x, callee); handled {
 		return v, ok
 	}
